@@ -25,6 +25,7 @@ class Prop:
     rule = ("real-time scenarios, each on its own device (sim bind/tun) with a remote party from the white paper, all run concurrently: "
             "unanswered initiation (retransmission gaps, give-up, with/without persistent keepalive; the bind refusing the 1st/2nd initiation), response to the k-th transmission only, "
             "interface bounce (Down/Up) within 1.2 s of a handshake message with/without persistent keepalive, answered or not, "
+            "give-up with something queued on a first handshake and on a re-handshake after an earlier session (key aged 181 s and attempt counter preset by hooks in quick, full 20 transmissions in thorough) followed by new traffic, "
             "receive-only (keepalive at 10 s, second data while pending), unanswered send (new handshake at 15 s + jitter; answered => none), "
             "persistent keepalive (1/2/3/.. s, interval restarted by a receive), 1/127/128/129/300/random TUN batches of 1..4 packets staged "
             "before completion in both roles; start offsets, batch sizes and delays from one PRNG; non-trivial = the trace contains at least "
@@ -33,7 +34,8 @@ class Prop:
                    "wall-clock accuracy of time.AfterFunc and goroutine latency are outside the model: observed with lower tolerance 2 ms and upper slack 500 ms, one re-run before a miss counts",
                    "an input falling inside a timer's firing window makes the trace inconclusive (counted, not failed)",
                    "key-age thresholds (120/165/180 s) are modelled but not exercised here (scenarios are shorter); see C07"]
-    trusted_extra = ["Base/Ints.v: primitive Uint63 literals carry event codes/times in generated case files only",
+    trusted_extra = ["hooks VerifShiftKeypairAges (verif_device.go) and VerifSetHandshakeAttempts (verif_c14.go) place the device in states that take 100-180 s to reach; both are events of the model",
+                     "Base/Ints.v: primitive Uint63 literals carry event codes/times in generated case files only",
                      "harness clock: time.Now() (monotonic) stamps of inputs (before delivery) and of Bind.Send / TUN Write"]
 
     def __init__(self):
